@@ -25,8 +25,10 @@ template<typename T> T *npy_getptr2(PyArrayObject *obj, npy_intp i, npy_intp j) 
 }
 
 template<typename T> void np1D_to_vector(PyArrayObject *obj, std::vector<T> &v) {
-    v.assign(npy_getptr1<T>(obj, 0),
-             npy_getptr1<T>(obj, PyArray_DIM(obj, 0)));
+    /* the callers pass contiguous arrays: step by element, not by the array's
+       stride, which is arbitrary for a one-element view */
+    const T *ptr = npy_getptr1<T>(obj, 0);
+    v.assign(ptr, ptr + PyArray_DIM(obj, 0));
 }
 
 template<typename T> void np2D_to_vector(
